@@ -118,6 +118,12 @@ class F4:
         self.cls = cls
 
 
+class F5:
+    """(class | class | a$): some character in cls, or the string ends with one of end_lits."""
+    def __init__(self, cls, end_lits, group):
+        self.cls, self.end_lits, self.group = cls, end_lits, group
+
+
 def classify(pattern, flags=0):
     items = parse(pattern, flags)
     if items is None:
@@ -128,6 +134,20 @@ def classify(pattern, flags=0):
         k = class_of_item(*inner[0])
         if k is not None:
             return F1(k, g)
+    # F5: alternation of single-character matchers and `a$`
+    if len(inner) == 1 and inner[0][0] == C.BRANCH:
+        cls5, ends, ok5 = CharClass([]), [], True
+        for alt in inner[0][1][1]:
+            alt = list(alt)
+            if len(alt) == 1 and class_of_item(*alt[0]) is not None:
+                cls5 = cls5.union(class_of_item(*alt[0]))
+            elif len(alt) == 2 and alt[0][0] == C.LITERAL and alt[1] == (C.AT, C.AT_END):
+                ends.append(alt[0][1])
+            else:
+                ok5 = False
+        if ok5 and ends:
+            cls5.name = 'F5class'
+            return F5(cls5, ends, g)
     # F4: class+ $
     if (len(items) == 2 and items[0][0] == C.MAX_REPEAT and items[0][1][0] == 1 and
             items[0][1][1] == C.MAXREPEAT and len(items[0][1][2]) == 1 and
